@@ -94,12 +94,15 @@ def interp_run(case, code, obs, resume_steps):
                                     e.next_phase, snapshot()])
             elif isinstance(e, StepFailed):
                 r["events"].append(["failed", lang.canon_val(e.t), snapshot()])
-    except lang.UserFunctionError as ex:
-        r["end"] = ["user"]
-        r["exc_same"] = bool(raised.log) and ex is raised.log[-1]
     except Exception as ex:  # noqa: BLE001
         nm = type(ex).__name__
-        r["end"] = ["raised", nm] if nm in lang.RAISE_CLASSES and type(ex) is lang.RAISE_CLASSES[nm] else ["crash", nm]
+        if raised.log and (ex is raised.log[-1] or ex.__cause__ is raised.log[-1] or ex.__context__ is raised.log[-1]):
+            # a user function raised during this step: the caller must get that very exception object
+            r["end"] = ["user"]
+            r["exc_same"] = ex is raised.log[-1]
+        else:
+            r["end"] = ["raised", nm] if nm in lang.RAISE_CLASSES and type(ex) is lang.RAISE_CLASSES[nm] \
+                else ["crash", nm]
     r["next"] = interp.next_phase
     r["final"] = snapshot()
     r["orders"] = [list(o) for o in orders]
@@ -158,12 +161,13 @@ def gen_run(case, code, obs, resume_steps):
                                     e.next_phase, snapshot()])
             elif isinstance(e, cls.StepFailed):
                 r["events"].append(["failed", lang.canon_val(e.t), snapshot()])
-    except lang.UserFunctionError as ex:
-        r["end"] = ["user"]
-        r["exc_same"] = bool(raised.log) and ex is raised.log[-1]
     except Exception as ex:  # noqa: BLE001
         nmx = type(ex).__name__
-        r["end"] = ["raised", ex.condition] if nmx == "StepError" else ["crash", nmx]
+        if raised.log and (ex is raised.log[-1] or ex.__cause__ is raised.log[-1] or ex.__context__ is raised.log[-1]):
+            r["end"] = ["user"]
+            r["exc_same"] = ex is raised.log[-1]
+        else:
+            r["end"] = ["raised", ex.condition] if nmx == "StepError" else ["crash", nmx]
     r["next"] = m.next_phase
     r["final"] = snapshot()
     r["new_attributes"] = sorted(set(vars(m)) - base_attrs - set(attrs.values()))
